@@ -417,7 +417,7 @@ pub fn accepts(prop: &str, v: &Viol, ops: &[OpRec]) -> bool {
     match prop {
         // (a value that was received or handed back AND destroyed by the library has two fates)
         "C01" => in_list(&["dup_recv", "recv_after_failed_send", "lost_value", "corrupt_value", "drop_of_unknown_value", "double_drop"]),
-        "C02" => in_list(&["fifo"]),
+        "C02" => in_list(&["fifo", "receiver_order"]),
         "C04" => in_list(&["corrupt_value", "drop_of_unknown_value", "race"]),
         "C05" => in_list(LEDGER_ALL),
         "C06" => in_list(PROGRESS),
@@ -517,7 +517,7 @@ pub fn accepts(prop: &str, v: &Viol, ops: &[OpRec]) -> bool {
                 || in_list(&["quiescent_try_send_mismatch", "quiescent_try_recv_mismatch", "quiescent_observer_mismatch"])
         }
         "C15" => {
-            in_list(&["uaf", "fifo", "dup_recv", "corrupt_value", "drop_of_unknown_value"])
+            in_list(&["uaf", "fifo", "receiver_order", "dup_recv", "corrupt_value", "drop_of_unknown_value"])
                 || (in_list(LEDGER_ALL) && opk.map(|o| o.k.is_async()).unwrap_or(false))
         }
         "C16" => in_list(&[
